@@ -20,7 +20,7 @@ import numpy as np
 from .c07 import call, gen_grid, gen_member_values, pick_val
 from .c07_synth import (Spec, Transcription, decode, env_at, eval_path, eval_point, interp_lin, syn_class)
 from .common import fr, quiet_fd, same
-from .translate_c06 import gen_readback
+from .translate_c06 import gen_readback, gen_user_rows
 
 INF = float("inf")
 
@@ -615,9 +615,17 @@ def readback(c, pr, dt, s, label, view):
     nlp = pr.transcribed_problem["nlp"]
     f_at = float(ca.Function("f", [nlp["x"]], [nlp["f"]])(pr.solver_output))
     f_doc = formula_on_results(dt, s, pr)
+    st = call(lambda: pr.solver_stats)
+    status = str((st[1] or {}).get("return_status", "")) if st[0] == "ok" else "?"
+    if "unsuccessful" in label and (status == "Invalid_Number_Detected" or not np.isfinite(f_at)):
+        # IPOPT gave up because the NLP functions are not a number at some point: it then reports f = 0 without
+        # having evaluated the objective at the point it returns, i.e. the solver contract this oracle relies on
+        # ("the returned f is the NLP objective at the returned x") does not apply to that outcome
+        c.hit("c06/readback-skipped-solver-invalid-number")
+        return
     if not close(f_at, ov, rtol=1e-7, atol=1e-7):
         c.fail("objective_value is not the transcribed objective at the returned point (%s)" % label, view,
-               dict(objective_value=ov, f_at_solver_output=f_at, formula_on_results=f_doc))
+               dict(objective_value=ov, f_at_solver_output=f_at, formula_on_results=f_doc, return_status=status))
     elif not close(f_doc, ov, rtol=1e-6, atol=1e-6):
         c.fail("objective_value differs from the documented formula on extract_results() (%s)" % label, view,
                dict(objective_value=ov, formula_on_results=f_doc))
@@ -748,7 +756,10 @@ def run(c):
         "one made unsuccessful by an iteration limit (both orders), objective_value read back after each; distinct = (E, n, poly, bound kinds, #constraints, variable kinds)"
     )
     c.assumptions = [
-        "CasADi evaluates Function/map/substitute/jacobian as documented; IPOPT returns the objective at its point",
+        "CasADi evaluates Function/map/substitute/jacobian as documented; IPOPT returns the objective at its point "
+        "(also after an iteration limit; not when it stops with Invalid_Number_Detected / the objective is not a "
+        "number at the returned point: it then reports f = 0 unevaluated, those unsuccessful solves are skipped "
+        "by the read-back oracle and counted)",
         "user-function values (J, Jpath, Gpath, Gpoint at the environment of a time stamp) are computed by the "
         "harness on trajectories decoded through state_vector(); how the environment is built is C01/C15",
         "path objective is scalar and path-constraint expressions/sizes are those of member 0 (documented "
@@ -756,11 +767,20 @@ def run(c):
         "source translation (harness/translate_c06.py): the read-back block of OptimizationProblem.optimize() is "
         "re-read on every run through the closed table in the translator's header (trusted) and proved equal to "
         "C06.readbackModel, for which `objective_value` / `solver_output` always belong to the latest solve",
+        "source translation, second part (gen_user_rows -> Gen/UserRows.lean): the slices of the mapped output, the "
+        "objective assembly (member loop, t0 term, probability), the point-constraint broadcasting loop and the "
+        "path-constraint bound block (per kind of bound: scalar / ndarray / 1-D / 2-D Timeseries) of transcribe() are "
+        "re-read on every run through the closed table of the translator (trusted) into NumPy / CasADi-level "
+        "primitives (np.full, np.broadcast_to, transpose, block assignment, ravel, ca.vec of a slice; "
+        "`self.interpolate(..).transpose()` of a Timeseries bound is one table entry read as column-wise 1-D "
+        "interpolation, its interior is C19's) and proved equal to fMember / objectiveCode / pointRows / pathRows / "
+        "memberRows and, through the property theorems, to the documented objective and rows; symbolic "
+        "(parameter-dependent) bounds are outside (F6)",
         "model precondition: the bound of a scalar (size 1) point constraint is a scalar or a one-element array; "
         "transcribe() does not shape-check longer arrays there (the solver call then fails on the length of lbg: a "
         "late crash, not a wrong answer)",
     ]
-    c.prove(extra=gen_readback(c))
+    c.prove(extra=gen_readback(c) + gen_user_rows(c))
     stream_malformed(c)
     probe_f6(c)
     stream_main(c, c.n(120, 2500))
